@@ -1,3 +1,5 @@
 import Driver.Loop
 import GunYu.Drive.C15
-def main : IO Unit := Driver.run [GunYu.Drive.C15.handle]
+import GunYu.Drive.C15Etcd
+import GunYu.Drive.C15Ticker
+def main : IO Unit := Driver.run [GunYu.Drive.C15.handle, GunYu.Drive.C15Etcd.handle, GunYu.Drive.C15Ticker.handle]
